@@ -178,3 +178,126 @@ Qed.
 Lemma hmi_resolve_callee : (forall b, hmi (run_builtin ob b)) -> hmi (resolve_callee ob).
 Proof. intros Hb. unfold resolve_callee. hmi. Qed.
 End Call.
+
+(* ------------------------------------------------------------------ CALL: the new frame *)
+Definition call_rest (lam : N) : M bool :=
+  dom s <- get_vm;
+  dom _ <- push (VEp (ep s));
+  dom _ <- push (VIp (fst (ip s)) (snd (ip s)));
+  dom _ <- set_ip (lam, 0); ret false.
+Lemma vr_ep W a1 a2 : ar W a1 a2 -> vr W (VEp a1) (VEp a2).
+Proof. intros [-> La]. split; [reflexivity|]. split; [|intros i []]. intros x [<-|[]]. exact La. Qed.
+Lemma vr_ip W a1 a2 i : ar W a1 a2 -> vr W (VIp a1 i) (VIp a2 i).
+Proof. intros [-> La]. split; [reflexivity|]. split; [|intros j []]. intros x [<-|[]]. exact La. Qed.
+Lemma sim_call_rest W l1 l2 : ar W l1 l2 -> sim W eqr (call_rest l1) (call_rest l2).
+Proof.
+  intros Hl. unfold call_rest.
+  sb ltac:(apply sim_get_vm). intros W1 x1 x2 E1 Hs.
+  sb ltac:(apply sim_push, vr_ep, (sn_ep _ _ _ Hs)). intros W2 ? ? E2 _.
+  destruct (sn_ip _ _ _ Hs) as [Hi1 Hi2]. rewrite Hi2.
+  sb ltac:(apply sim_push, vr_ip; eapply ar_x; [|exact Hi1]; xt). intros W3 ? ? E3 _.
+  sb ltac:(apply sim_set_ip; eapply ar_x; [|exact Hl]; xt). intros. apply sim_ret. reflexivity.
+Qed.
+
+(* ------------------------------------------------------------------ TCALL: the frame is reused *)
+Lemma hmi_tcall_copy k : forall it, hmi (tcall_copy k it).
+Proof. induction k as [|k IH]; intros it; cbn [tcall_copy]; hmi; try apply IH. Qed.
+Lemma hmi_tcall_rebuild k : forall p, hmi (tcall_rebuild k p).
+Proof. induction k as [|k IH]; intros p; cbn [tcall_rebuild]; hmi; try apply IH. Qed.
+#[export] Hint Resolve hmi_tcall_copy hmi_tcall_rebuild : hmi.
+
+Lemma sim_tcall_copy k : forall W it, sim W (@anyr unit unit) (tcall_copy k it) (tcall_copy k it).
+Proof.
+  induction k as [|k IH]; intros W it; cbn [tcall_copy]; [apply sim_ret; exact I|].
+  sb ltac:(apply sim_stack_get_offset; lia). intros W1 v1 v2 E1 Hv.
+  sb ltac:(apply sim_get_vm). intros W2 x1 x2 E2 Hs. rewrite (sn_bp _ _ _ Hs).
+  sb ltac:(apply sim_usub). intros W3 d1 d2 E3 Hd. red in Hd. subst d2.
+  sb ltac:(apply sim_stack_put; eapply vr_x; [|exact Hv]; xt). intros. apply IH.
+Qed.
+Lemma sim_tcall_rebuild k : forall W ssp, ssp <= wtop W -> sim W (@anyr unit unit) (tcall_rebuild k ssp) (tcall_rebuild k ssp).
+Proof.
+  induction k as [|k IH]; intros W ssp T; cbn [tcall_rebuild]; [apply sim_ret; exact I|].
+  sb ltac:(apply sim_usub_le). intros W1 p1 p2 E1 [-> Hp].
+  sb ltac:(apply sim_stack_get; pose proof (top_x _ _ _ E1 T); lia). intros W2 v1 v2 E2 Hv.
+  sb ltac:(apply sim_push, Hv). intros W3 ? ? E3 _. apply IH.
+  eapply top_x; [|exact T]. xt.
+Qed.
+
+Definition tcall_rest (lam argc : N) (s : vm) : M bool :=
+  dom fa <- stack_get (bp s + 1); dom frame_argc <- as_argc fa;
+  if argc =? frame_argc then
+    dom saved_bp <- stack_get (bp s + 4);
+    dom _ <- tcall_copy (N.to_nat argc) 0;
+    dom _ <- set_sp (bp s + 3);
+    dom b <- as_bp saved_bp; dom _ <- set_bp b;
+    dom _ <- set_ip (lam, 0); ret false
+  else
+    let saved_sp := sp s in
+    dom saved_ep <- stack_get (bp s + 2);
+    dom saved_ip <- stack_get (bp s + 3);
+    dom saved_bp <- stack_get (bp s + 4);
+    dom nsp <- usub (bp s) frame_argc;
+    dom _ <- set_sp nsp;
+    dom _ <- tcall_rebuild (N.to_nat argc) saved_sp;
+    dom _ <- push (VArgc argc);
+    dom _ <- push saved_ep;
+    dom _ <- push saved_ip;
+    dom b <- as_bp saved_bp; dom _ <- set_bp b;
+    dom _ <- set_ip (lam, 0); ret false.
+
+Lemma sim_tcall_rest W l1 l2 argc x1 x2 : ar W l1 l2 -> snap W x1 x2 -> bp x1 + 4 <= sp x1 ->
+  sim W eqr (tcall_rest l1 argc x1) (tcall_rest l2 argc x2).
+Proof.
+  intros Hl Hs Hf. unfold tcall_rest. rewrite (sn_bp _ _ _ Hs), (sn_sp _ _ _ Hs).
+  pose proof (sn_top _ _ _ Hs) as T.
+  sb ltac:(apply sim_stack_get; lia). intros W1 a1 a2 E1 Ha.
+  sb ltac:(apply sim_as_argc, Ha). intros W2 n1 n2 E2 Hn. red in Hn. subst n2.
+  assert (T2 : sp x1 <= wtop W2) by (eapply top_x; [|exact T]; xt).
+  destruct (argc =? n1).
+  - sb ltac:(apply sim_stack_get; lia). intros W3 b1 b2 E3 Hb.
+    sb ltac:(apply sim_tcall_copy). intros W4 ? ? E4 _.
+    assert (T4 : sp x1 <= wtop W4) by (eapply top_x; [|exact T2]; xt).
+    sb ltac:(apply sim_set_sp; lia). intros W5 ? ? E5 _.
+    sb ltac:(apply sim_as_bp; eapply vr_x; [|exact Hb]; xt). intros W6 c1 c2 E6 Hc. red in Hc. subst c2.
+    sb ltac:(apply sim_set_bp). intros W7 ? ? E7 _.
+    sb ltac:(apply sim_set_ip; eapply ar_x; [|exact Hl]; xt). intros. apply sim_ret. reflexivity.
+  - sb ltac:(apply sim_stack_get; lia). intros W3 e1 e2 E3 He.
+    assert (T3 : sp x1 <= wtop W3) by (eapply top_x; [|exact T2]; xt).
+    sb ltac:(apply sim_stack_get; lia). intros W4 i1 i2 E4 Hi.
+    assert (T4 : sp x1 <= wtop W4) by (eapply top_x; [|exact T3]; xt).
+    sb ltac:(apply sim_stack_get; lia). intros W5 b1 b2 E5 Hb.
+    sb ltac:(apply sim_usub_le). intros W6 p1 p2 E6 [-> Hp].
+    assert (T6 : sp x1 <= wtop W6) by (eapply top_x; [|exact T4]; xt).
+    sb ltac:(apply sim_set_sp; lia). intros W7 ? ? E7 _.
+    sb ltac:(apply sim_tcall_rebuild; eapply top_x; [|exact T6]; xt). intros W8 ? ? E8 _.
+    sb ltac:(apply sim_push, vr_argc). intros W9 ? ? E9 _.
+    sb ltac:(apply sim_push; eapply vr_x; [|exact He]; xt). intros W10 ? ? E10 _.
+    sb ltac:(apply sim_push; eapply vr_x; [|exact Hi]; xt). intros W11 ? ? E11 _.
+    sb ltac:(apply sim_as_bp; eapply vr_x; [|exact Hb]; xt). intros W12 c1 c2 E12 Hc. red in Hc. subst c2.
+    sb ltac:(apply sim_set_bp). intros W13 ? ? E13 _.
+    sb ltac:(apply sim_set_ip; eapply ar_x; [|exact Hl]; xt). intros. apply sim_ret. reflexivity.
+Qed.
+
+Definition frame_ok (s : vm) : Prop := bp s + 4 <= sp s.
+Lemma tcall_frame_eq lam :
+  tcall_frame lam = (dom a <- stack_get_offset 0; dom argc <- as_argc a; dom s <- get_vm; tcall_rest lam argc s).
+Proof. reflexivity. Qed.
+Lemma hmi_tcall_rest l n s : hmi (tcall_rest l n s).
+Proof. unfold tcall_rest. hmi. Qed.
+Lemma hmi_tcall_frame l : hmi (tcall_frame l).
+Proof. unfold tcall_frame. hmi. Qed.
+#[export] Hint Resolve hmi_tcall_rest hmi_tcall_frame : hmi.
+
+Lemma simg_tcall_frame W l1 l2 : ar W l1 l2 -> simg W frame_ok eqr (tcall_frame l1) (tcall_frame l2).
+Proof.
+  intros Hl. rewrite !tcall_frame_eq.
+  eapply simg_bind_inv; [apply simg_of_sim, sim_stack_get_offset; lia|hmi|intros; hmi| |].
+  { intros s a s' g E. rewrite (rd_stack_get_offset _ _ _ _ E). exact g. }
+  intros W1 a1 a2 E1 Ha.
+  eapply simg_bind_inv; [apply simg_of_sim, sim_as_argc, Ha|hmi|intros; hmi| |].
+  { intros s a s' g E. rewrite (rd_as_argc _ _ _ _ E). exact g. }
+  intros W2 n1 n2 E2 Hn. red in Hn. subst n2.
+  eapply simg_bind; [apply rsim_simg, rsim_get_vm|hmi|intros; hmi|].
+  intros W3 x1 x2 E3 (Hs & g & _). apply simg_of_sim.
+  apply sim_tcall_rest; [eapply ar_x; [|exact Hl]; xt|eapply snap_ext; [exact E3|exact Hs]|exact g].
+Qed.
